@@ -7,6 +7,8 @@ CONSTANTS
     MaxRetry = 10
     MaxFail = 1
     AnyRemainder = FALSE
+    NonEmptyRem = FALSE
+    OutcomeSet = {"ok", "fail", "retry", "panic", "panicFut"}
     AllowKill = TRUE
     MaxIdleDelay = 3
     Emit = FALSE
